@@ -469,6 +469,9 @@ ME = "distance3d/mesh.py"
 RB = "distance3d/hydroelastic_contact/_rigid_body.py"
 MP = "distance3d/mpr.py"
 _SEEDLIKE = [
+    M(["C15", "C16"], "hydro-forces-unpack-swapped", "distance3d/hydroelastic_contact/_forces.py", "contact_surface_forces",
+      "(coms[intersection_idx], forces[intersection_idx], areas[intersection_idx], triangle)", "(forces[intersection_idx], coms[intersection_idx], areas[intersection_idx], triangle)", ["R-UNPACK", "contact_surface_forces"]),
+    M(["C05", "C06"], "tree-insert-unpack-swapped", "distance3d/aabb_tree.py", "insert_aabbs", "(root, nodes, aabbs, filled_len)", "(root, aabbs, nodes, filled_len)", ["R-"]),
     M(["C15", "C16"], "hydro-x2-from-body1", "distance3d/hydroelastic_contact/_interface.py", "find_contact_surface", "rigid_body2.tetrahedra_points[broad_tetrahedra2]", "rigid_body1.tetrahedra_points[broad_tetrahedra2]", ["R-SIDES", "find_contact_surface"]),
     M(["C15", "C16"], "hydro-potentials-twice-body1", "distance3d/hydroelastic_contact/_interface.py", "find_contact_surface", "rigid_body2.tetrahedra_potentials", "rigid_body1.tetrahedra_potentials", ["R-SIDES", "find_contact_surface"]),
     M(["C15", "C16"], "hydro-pair-x-swapped", TI, "intersect_tetrahedron_pair", "contact_plane(X1, X2, epsilon1, epsilon2, youngs_modulus1, youngs_modulus2)", "contact_plane(X1, X2, epsilon2, epsilon1, youngs_modulus1, youngs_modulus2)", ["R-SIDES", "contact_plane"]),
